@@ -60,7 +60,9 @@ PAYLOADS = ["<img src=x onerror=alert(1)>", "<script>alert(1)</script>", "</styl
             "</title><script>x</script>", "--><script>x</script><!--", "]]><script>x</script>", "</textarea><script>x</script>",
             "<iframe src=javascript:alert(1)>", "<a href=javascript:alert(1)>x</a>", "</svg><script>x</script>", "</math><img onerror=x>",
             "<svg onload=alert(1)>", "\"><img onerror=x>", "'><img onerror=x>", "`><img onerror=x>", "</p><script>x</script>",
-            "<!--", "<![CDATA[", "</xmp><script>x</script>", "</plaintext><script>x", "<style>@import 'x'</style>"]
+            "<!--", "<![CDATA[", "</xmp><script>x</script>", "</plaintext><script>x", "<style>@import 'x'</style>",
+            # both kinds of quotes in one value
+            "x' onmouseover='alert(1)' \"", "\"'><img onerror=x>", "' \" onfocus=alert(1) x='", "a\"b'c onclick=alert(1) d='e\"f"]
 
 
 def esc(s, level):
@@ -106,6 +108,12 @@ def mxss_input(rng):
         s = rng.choice(HTML_WRAPS) % s
     if rng.random() < 0.2:
         s += gen.soup(rng, 5)
+    if rng.random() < 0.06:
+        # a doctype whose identifiers carry the payload (the serializer writes them between quotes of its own choice)
+        q = rng.choice(["'", '"'])
+        pay2 = rng.choice(PAYLOADS).replace(q, "")
+        s = rng.choice(["<!DOCTYPE html PUBLIC %s%s%s>", "<!DOCTYPE html SYSTEM %s%s%s>", "<!DOCTYPE html PUBLIC 'a' %s%s%s>", "<!DOCTYPE %s%s%s>",
+                        "<!DOCTYPE html PUBLIC %s%s%s 'b'>"]) % (q, pay2, q) + s
     return s
 
 
@@ -113,7 +121,7 @@ OPTS = {
     "omit_optional_tags": [True, False], "quote_attr_values": ["legacy", "spec", "always"], "escape_rcdata": [False, True],
     "strip_whitespace": [False, True], "alphabetical_attributes": [False, True], "use_trailing_solidus": [False, True],
     "space_before_trailing_solidus": [True, False], "minimize_boolean_attributes": [True, False], "escape_lt_in_attrs": [False, True],
-    "quote_char": [None, "'", '"'],
+    "quote_char": [None, "'", '"'], "use_best_quote_char": [None, None, True, False],
 }
 MODES = [("doc", None), ("frag", "div"), ("frag", "body"), ("frag", "p"), ("frag", "table"), ("frag", "tr"), ("frag", "td"),
          ("frag", "select"), ("frag", "span"), ("frag", "html"), ("frag", "head"), ("frag", "noscript"), ("frag", "template"), ("frag", "math"),
